@@ -3,7 +3,7 @@ use crate::{
     error::CompilerError,
 };
 
-use crate::parser::expression::{parse_call_like, parse_expression};
+use crate::parser::expression::{parse_call_like, parse_expression, parse_path_identifier};
 
 pub fn tokenize_inline_content(content: &str) -> Result<Vec<Node>, CompilerError> {
     // Inline conditionals and sequences come back here for their branches.
@@ -546,8 +546,12 @@ pub fn parse_condition(condition: &str) -> Result<crate::ast::Condition, Compile
         "true" => Ok(Condition::Bool(true)),
         "false" => Ok(Condition::Bool(false)),
         _ => {
-            if let Some(name) = condition.strip_suffix("()") {
-                return Ok(Condition::FunctionCall(name.trim().to_owned()));
+            // A bare call `name()`. Anything longer that merely ends in a call
+            // (`x == one()`, `not done()`) is an expression like any other.
+            if let Some(name) = condition.strip_suffix("()").map(str::trim)
+                && parse_path_identifier(name) == Some(name)
+            {
+                return Ok(Condition::FunctionCall(name.to_owned()));
             }
 
             Ok(Condition::Expression(parse_expression(condition)?))
